@@ -146,8 +146,12 @@ def rule_branch_table(ck: Check, repo: Repo, folder: Folder) -> None:
             inner = m.group(1)
             if inner == f"text[{IDX_E}:]":
                 return "CUT-AND-CONTINUE(after end)"
-            if inner.startswith(f"text[{IDX_S} + len(REUSE_IGNORE_START):]["):
+            rest_ = f"text[{IDX_S} + len(REUSE_IGNORE_START):]"
+            if inner == f"{rest_}[{rest_}.index(REUSE_IGNORE_END) + len(REUSE_IGNORE_END):]":
                 return "CUT-AND-CONTINUE(after end in rest)"
+            if inner.startswith(rest_ + "["):
+                # continues somewhere else in the rest than directly behind its first end marker
+                return f"CUT-AND-CONTINUE(in rest at {inner[len(rest_):][:80]})"
             return f"CUT-AND-CONTINUE({inner})"
         return t
 
@@ -397,6 +401,18 @@ def run(ck: Check, repo: Repo) -> None:
         from . import c02 as _c02
         _c02.rule_window(ck, repo, folder, "R4")
         return
+    # ... a find() whose result is KEPT as a position (assigned, or used in arithmetic / as a slice bound); `text.find(M) != -1` used
+    # as a membership test is the structure the table knows
+    def _is_find(n):
+        return isinstance(n, ast.Call) and isinstance(n.func, ast.Attribute) and n.func.attr in ("find", "rfind")
+    uses_find = any((isinstance(st, (ast.Assign, ast.AnnAssign, ast.AugAssign)) and st.value is not None and any(_is_find(x) for x in ast.walk(st.value)))
+                    or (isinstance(st, (ast.Slice, ast.BinOp)) and any(_is_find(x) for x in ast.walk(st)))
+                    for st in ast.walk(fib))
+    if uses_find and not regex_family:
+        # positions by str.find (-1 for 'absent') instead of membership test + str.index: the branch table's atoms (`MARKER in text`,
+        # an index that is 0) do not describe such a function - misreading `pos == -1` as an index test would be a false alarm
+        raise AnalysisError("filter_ignore_block locates the markers with str.find (absence is -1): the branch table is stated for the"
+                            " membership-test + str.index structure; this analyser cannot decide the find() form")
     if not (uses_index and recursive):
         raise AnalysisError("filter_ignore_block no longer has the index-and-recurse structure that the branch table models"
                             " (marker positions by str.index, recursion on the rest): this analyser cannot decide the new"
